@@ -170,9 +170,44 @@ def rust_operand(ty, v):
     return "&" + rust_value(v)
 
 
+# constants and a unit variant that can be written as BARE identifiers (lower-case ones included): syn cannot tell such a
+# pattern from a binding, rustc resolves it to the constant / variant -- it is refutable and matches like its value
+NAMED_INT = {3: "three", 7: "SEVEN", -1: "neg_one", 4: "four"}
+
+
+def mark_named(p, rng, top_int=False):
+    """top_int: the pattern sits directly at an `i32` argument (scrutinee type `&i32`): the named constants are `&i32`
+    constants, since rustc does not auto-dereference for constant patterns"""
+    k = p[0]
+    if k == "int" and len(p) == 2 and top_int and p[1] in NAMED_INT and rng.random() < 0.3: return ("int", p[1], "named")
+    if k == "ctor" and p[1] == "A" and len(p) == 3 and rng.random() < 0.4: return ("ctor", "A", [], "named")
+    if k == "or": return (k, [mark_named(q, rng, top_int) for q in p[1]])
+    if k == "tuple": return (k, [mark_named(q, rng) for q in p[1]])
+    if k == "paren": return (k, mark_named(p[1], rng, top_int))
+    if k == "at": return (k, p[1], mark_named(p[2], rng, top_int))
+    if k == "ctor": return (k, p[1], [mark_named(q, rng) for q in p[2]])
+    if k == "struct": return (k, p[1], [(i, mark_named(q, rng)) for i, q in p[2]])
+    if k == "slice": return (k, [mark_named(q, rng) for q in p[1]], p[2], [mark_named(q, rng) for q in p[3]])
+    return p
+
+
+def mark_named_surface(case, rng):
+    s, sig = case["surface"], case["sig"]
+    if s["form"] == "empty":
+        return
+    def alt(elems):
+        return [mark_named(q, rng, top_int=(i < len(sig) and sig[i] == "int")) for i, q in enumerate(elems)]
+    if s["form"] == "simple" and s.get("guard") is None:
+        s["pats"] = alt(s["pats"])
+    else:
+        s["pats"] = [("tuple", alt(t[1])) if t[0] == "tuple" else (t[0], alt([t[1]])[0]) for t in s["pats"]]
+
+
 def rust_pat(p, in_or=False):
     k = p[0]
     if k == "wild": return "_"
+    if k == "int" and len(p) > 2: return NAMED_INT[p[1]]
+    if k == "ctor" and p[1] == "A" and len(p) > 3: return "unit_a"
     if k == "bind": return p[1]
     if k == "at":
         inner = rust_pat(p[2])
@@ -590,7 +625,9 @@ def directed_cases():
         for ne in (False, True):
             cm = ("cmp", ne, vint(3))
             for alts in ([[cm, b]], [[b, cm]], [[cm, b], [b, cm]], [[b, ("wild",)], [("wild",), b]], [[cm, b], [b, ("int", 7)]],
-                         [[b, ("range", 3, 4)], [("or", [("int", -1), ("int", 7)]), b]]):
+                         [[b, ("range", 3, 4)], [("or", [("int", -1), ("int", 7)]), b]],
+                         # an eq!/ne! operand in a LATER alternative only (the guard is spliced into every arm)
+                         [[b, ("int", 7)], [cm, b]], [[b, ("wild",)], [b, cm]]):
                 if ne and not any(p[0] == "cmp" for a in alts for p in a): continue
                 groups = [("tuple", a) for a in alts]
                 surface = {"form": "simple" if len(alts) == 1 else "disj", "pats": groups, "guard": g}
@@ -631,6 +668,14 @@ def gen_cases(rng, tier):
     cases = [f3_witness()] + directed_cases()         # corpus: the recorded witness of F3, then the directed family
     while len(cases) < n:
         cases.append(g.case(pool))
+    # some literals / unit variants are written as named constants (bare identifiers)
+    for c in cases[1:]:
+        mark_named_surface(c, rng)
+    for sig, pats in ((["int", "int"], [("int", 3, "named"), ("wild",)]), (["int", "int"], [("int", 7, "named"), ("int", -1, "named")]),
+                      (["enum"], [("ctor", "A", [], "named")]), (["enum", "int"], [("ctor", "A", [], "named"), ("int", 4, "named")])):
+        cases.append({"sig": sig, "_form": "directed", "surface": {"form": "simple", "pats": pats, "guard": None}})
+        cases.append({"sig": sig, "_form": "directed", "surface": {"form": "disj", "guard": None,
+                                                                    "pats": [("tuple", pats), ("tuple", [("wild",)] * len(sig))][:1] + [("tuple", pats)]}})
     return cases
 
 
